@@ -209,26 +209,28 @@ Definition get_r (k : string) (j : json) : res (option json) :=
 Definition opt_truthy (o : option json) : bool :=
   match o with Some v => py_truthy v | None => false end.
 
-(* `x.get(k)` guarded by `if not x or not isinstance(x, dict): return None`:
-   [None] = the guard returned *)
-Definition guarded_get (k : string) (x : json) : option (option json) :=
-  match x with
-  | JMap kvs => if py_truthy x then Some (lookup k kvs) else None
-  | _ => None
-  end.
-
+(* the `.get` of a holder is guarded by
+   `if not x or not isinstance(x, dict): return None`, so it cannot raise *)
 Definition extract_last_applied_r (live : json) (ann : option json) : res (option json) :=
   if negb (py_truthy live) then Done None else
   bind (get_r "metadata" live) (fun md =>
   match md with
   | None => Done None
   | Some md =>
-  match guarded_get "annotations" md with
-  | None | Some None => Done None
-  | Some (Some an) =>
-  match guarded_get last_applied_key an with
-  | None | Some None => Done None
-  | Some (Some la) =>
+  if negb (py_truthy md) then Done None else
+  match md with
+  | JMap _ =>
+  bind (get_r "annotations" md) (fun an =>
+  match an with
+  | None => Done None
+  | Some an =>
+  if negb (py_truthy an) then Done None else
+  match an with
+  | JMap _ =>
+  bind (get_r last_applied_key an) (fun la =>
+  match la with
+  | None => Done None
+  | Some la =>
   if negb (py_truthy la) then Done None else
   match la with
   | JStr _ =>
@@ -238,7 +240,11 @@ Definition extract_last_applied_r (live : json) (ann : option json) : res (optio
       | None => Raised ExValueError
       end
   | _ => Raised ExTypeError
-  end end end end).
+  end end)
+  | _ => Done None            (* not isinstance(annotations, dict) *)
+  end end)
+  | _ => Done None            (* not isinstance(metadata, dict) *)
+  end end).
 
 (* exception-free view (stable type): every raising case reads as "no
    last-applied".  Agrees with [extract_last_applied_r] whenever that is Done. *)
